@@ -22,6 +22,9 @@ def forced(g, i):
         ms = []
         for v in r.sample(["a", "b", "c"], r.randrange(2, 4)):
             props = [(d, False, ("lit", v))] + [(x, r.random() < 0.4, leaf()) for x in r.sample(["p", "q", "r"], r.randrange(0, 3))]
+            if i % 16 >= 8:
+                # a second key (sorted before the discriminator) whose string literal sets overlap between the members
+                props.append(("c", False, ("union", [("lit", "ab"), ("lit", v + "1")]) if r.random() < 0.7 else ("lit", "ab")))
             idx = (("str",), r.choice([("num",), ("str",), ("bool",)])) if r.random() < 0.6 else None
             if idx is not None:
                 # the declared properties must fit the index signature's value type in TypeScript; beff does not check, we keep it honest
